@@ -54,7 +54,7 @@ def applyIncludeOp : Handler := fun args =>
 /-- `importResources(source, target)` -/
 def importResourcesOp : Handler := fun args =>
   match valOf (getObj args "source"), valOf (getObj args "target") with
-  | .map s, .map t => outJson kvsJson (importResources s t)
+  | .map s, .map t => outJson kvsJson (importResources deepEqual s t)
   | _, _ => Json.mkObj [("bad", "args")]
 
 def cfgJson (c : IncCfg) : Json :=
